@@ -49,15 +49,19 @@ Theorem C15_named_to_keeps : forall rt n rid m, m <> trim_space n ->
   assoc m (named (named_to rt n rid)) = assoc m (named rt).
 Proof. exact named_to_other. Qed.
 
-(* known findings K3 / K4 (not repaired): a trailing space is trimmed by lookup normalisation; a value containing another
-   placeholder's text is replaced again by the next replacement pass *)
+(* known finding K3 (not repaired): a trailing space is trimmed by lookup normalisation *)
 Definition k3_path : str := [47;112;47;123;110;125]%N.           (* /p/{n} *)
 Theorem C15_trailing_space_refuted :
   Norm.format_path false (build_path k3_path [([123;110;125]%N, [98;111;98;32]%N)] (var_texts k3_path)) = Ok [47;112;47;98;111;98]%N.
 Proof. vm_compute. reflexivity. Qed.
 Definition k4_path : str := [47;123;97;125;47;123;98;125]%N.     (* /{a}/{b} *)
-Theorem C15_brace_value_refuted :
-  build_path k4_path [([123;97;125]%N, [123;98;125]%N); ([123;98;125]%N, [120]%N)] (var_texts k4_path) = [47;120;47;120]%N.
+(* repaired defect F19 (was K4): Build replaced the variables one after the other, scanning inserted values again:
+   {a} := "{b}", {b} := "x" gave /x/x.  After the repair all variables are replaced in one pass: /{b}/x *)
+Theorem C15_legacy_F19_refuted :
+  build_path_legacy k4_path [([123;97;125]%N, [123;98;125]%N); ([123;98;125]%N, [120]%N)] (var_texts_legacy k4_path) = [47;120;47;120]%N.
+Proof. vm_compute. reflexivity. Qed.
+Theorem C15_brace_value_one_pass :
+  build_path k4_path [([123;97;125]%N, [123;98;125]%N); ([123;98;125]%N, [120]%N)] (var_texts k4_path) = [47;123;98;125;47;120]%N.
 Proof. vm_compute. reflexivity. Qed.
 
 Print Assumptions C15_matches.
@@ -68,6 +72,7 @@ Print Assumptions C15_params.
 Print Assumptions C15_get_route.
 Print Assumptions C15_other_names_kept.
 Print Assumptions C15_trailing_space_refuted.
-Print Assumptions C15_brace_value_refuted.
+Print Assumptions C15_legacy_F19_refuted.
+Print Assumptions C15_brace_value_one_pass.
 Print Assumptions C15_named_to.
 Print Assumptions C15_named_to_keeps.
